@@ -247,7 +247,7 @@ class Ctx(object):
                 if key not in [x["key"] for x in self.known_hits]:
                     self.known_hits.append(k)
                 return
-        if len(self.violations) >= 20:
+        if len(self.violations) >= 8:
             return
         rec = {"property": self.pid, "what_no_longer_checks": name, "seed": self.seed,
                "tier": self.tier, "found_failing_input": found_input, "key": key, "case": data,
@@ -264,9 +264,31 @@ class Ctx(object):
         if len(self.coverage["samples"]) < limit:
             self.coverage["samples"].append(s)
 
+    def coqchk(self, timeout=1500):
+        """thorough tier: re-check the property's .vo closure with the independent checker and
+        record the axioms it reports (library axioms of everything loaded included)"""
+        try:
+            with CoqLock():
+                p = subprocess.run(["coqchk", "-silent", "-o", "-Q", ".", "YV", "YV.Properties." + self.pid],
+                                   cwd=COQ, stdout=subprocess.PIPE, stderr=subprocess.STDOUT, text=True,
+                                   timeout=timeout)
+            out = p.stdout
+            m = re.search(r"\* Axioms:(.*?)\n\s*\n\* Constants", out, re.S)
+            axioms = " ".join(m.group(1).split()) if m else "unparsed"
+            self.coverage["coqchk"] = {"exit": p.returncode, "axioms": axioms}
+            if p.returncode != 0:
+                self.ties["coqchk"] = "broken: " + out[-400:]
+            return p.returncode == 0
+        except Exception as e:  # timeout etc.
+            self.coverage["coqchk"] = {"error": str(e)[:200]}
+            return False
+
     # ---------- evidence ----------
     def finish(self, rule, assumptions_text, extra=None, level="proof"):
         cov = self.coverage
+        if self.tier == "thorough" and self.proof_ok and "coqchk" not in cov:
+            if not self.coqchk() and not self.violations and "error" not in cov.get("coqchk", {}):
+                self.tie_broken_without_input("coqchk:Properties/%s" % self.pid, self.ties.get("coqchk"))
         cov["rule"] = rule
         cov["obligations"] = len(self.theorems)
         cov["discharged"] = len(self.theorems) if self.proof_ok else 0
